@@ -35,6 +35,8 @@ TEXT = {
     'C02': dict(technique=WL,
         text='c02_blocked_*: an agent whose acquisition/upgrade step cannot succeed coexists with a live conflicting holder; c02_solo_acquire; c02_quiescent_free_*: no holder => word free; c02_mcs_*: on MCSLock every failing wait condition has an unfinished request ahead in the queue as witness and the front of the queue passes. '
              'c02_fair_termination_pess/_opt: k agents each requesting its mode once and releasing it, any modes, every schedule of more than 3k(2k+1) rounds ends with all requests granted and released and the lock free (potential argument over the same lock model); c02_fair_termination_conv_*: the same with agents that upgrade (SIX->X) or downgrade (X->SIX); c02_fair_termination_programs_*: threads issuing sequences of such requests on one lock. '
+             'Guard level: c02_client_quiescent_lock_free_pess/_opt - after any schedule of any well-formed client program, once all threads have finished and all guards are gone, '
+             'every lock word is completely free and a fresh LockX is admitted at once (guard algebra + reachable_locks + c02_quiescent_free_*). '
              'Dynamic: stuck detection under fair policies + final LockX probe on every lock (found F1, F3).',
         note=TRUST + 'Fair termination for MCSLock is not a Lean theorem (MCS: per-state witnesses c02_mcs_*; correspondence + stuck monitor).'),
     'C03': dict(technique=WL,
